@@ -6,16 +6,16 @@ CONSTANTS
   SelectMode = "det"
   LegacyBreak = FALSE
   MetricDefs <- BudMetrics
-  SlotDefs <- BudSlots
-  Sizes <- Sz123
-  WWs = {1, 2}
+  SlotDefs <- BudSlots5
+  Sizes <- Sz13
+  WWs = {1}
   MWs = {1}
-  NWs = {1, 2}
+  NWs = {1}
   GWs = {1}
   Buds = {0, 2, 5}
   NSAs = {FALSE}
   OptSets <- OptsBud
-  Budgets = {2, 4, 7, 10}
+  Budgets = {4, 7}
 VIEW MCView
 INVARIANTS TypeOK AtMostOnce ExactlyOnce Unbiased KeptRowsFactorGE1 NoSampleAgentKept SameFactorInLeaf FitsNothingSampled FairShare FixedWithinBudget FairShareRemaining FitIsJustified Monotone KeptWithinBudget QuotaWithinTotal QuotaProportional QuotaFitIsSize QuotaWithinTotalAnyRounding ExportDone
 CHECK_DEADLOCK FALSE
